@@ -64,6 +64,9 @@ type c15Case struct {
 	Via string `json:"via"`
 	// Pre: import paths referenced before, so that local names are already taken
 	Pre []string `json:"pre,omitempty"`
+	// Warm: the very snippet value is rendered elsewhere first - through another writer whose target package is the reference's
+	// own package ("own"), an unrelated one ("other"), or one whose tracker already holds clashing names ("clash")
+	Warm string `json:"warm,omitempty"`
 }
 
 const c15Own = "example.com/mod/target"
@@ -131,6 +134,7 @@ func genC15(t *rapid.T) c15Case {
 		}
 	}
 	c.Via = rapid.SampledFrom([]string{"string", "string", "typename", "expose"}).Draw(t, "via")
+	c.Warm = rapid.SampledFrom([]string{"", "", "", "own", "other", "clash"}).Draw(t, "warm")
 	np := rapid.IntRange(0, 3).Draw(t, "npre")
 	for i := 0; i < np; i++ {
 		c.Pre = append(c.Pre, rapid.SampledFrom(c15Paths[1:]).Draw(t, "pre"))
@@ -338,6 +342,22 @@ func oracleC15(c c15Case) error {
 		sn = snippet.PkgExpose(c.Ref.Path, rest)
 	default:
 		sn = snippet.ID(s)
+	}
+	if c.Warm != "" {
+		warmTracker := namer.NewDefaultImportTracker()
+		warmTarget := "example.com/warm/elsewhere"
+		switch c.Warm {
+		case "own":
+			warmTarget = c.Ref.Path
+		case "clash":
+			for _, p := range c15Paths[1:] {
+				warmTracker.AddType(gengotypes.Ref(p, "Warm"))
+			}
+		}
+		warm := gengo.NewSnippetWriter(&bytes.Buffer{}, namer.NameSystems{"raw": namer.NewRawNamer(warmTarget, warmTracker)})
+		if p := ev.Panics(func() { warm.Render(sn) }); p != nil {
+			return fmt.Errorf("rendering %q (via %s) into %s panics: %v", s, c.Via, warmTarget, p)
+		}
 	}
 	if p := ev.Panics(func() { w.Render(sn) }); p != nil {
 		return fmt.Errorf("rendering %q (via %s) panics: %v", s, c.Via, p)
